@@ -137,14 +137,17 @@ def parseBody (stop : Option Nat) (bs : List Nat) : Out := run stop {} bs
 /-! ### identifier codes -/
 
 /-- `id_to_int` -/
+def idStep (acc : Option Nat) (i : Nat) : Option Nat :=
+  match acc with
+  | none => none
+  | some r => if 33 ≤ i ∧ i ≤ 126 then
+      let v := r * 94 + ((i - 33) + 1)
+      if v < 2 ^ 64 then some v else none
+    else none
+
 def idToInt (id : List Nat) : Option Nat :=
   if id.isEmpty then none else
-  match id.reverse.foldl (fun (acc : Option Nat) (i : Nat) => match acc with
-      | none => none
-      | some r => if 33 ≤ i ∧ i ≤ 126 then
-          let v := r * 94 + ((i - 33) + 1)
-          if v < 2 ^ 64 then some v else none
-        else none) (some 0) with
+  match id.reverse.foldl idStep (some 0) with
   | none => none
   | some r => some (r - 1)
 
